@@ -523,7 +523,7 @@ func (x *Exec) load(st *State, p *PtrV, t types.Type) SVal {
 		return x.zeroValue(t)
 	}
 	if p.Obj.Array {
-		if at, ok := t.Underlying().(*types.Array); ok && p.Idx != nil && len(p.Path) == 0 {
+		if at, ok := t.Underlying().(*types.Array); ok && len(p.Path) == 0 {
 			// loading a whole array value through pointer to array object
 			os := x.objState(st, p.Obj)
 			av := &ArrayV{T: at, Leaves: map[string]*Content{}}
